@@ -182,13 +182,17 @@ NonEmptyFiles(ds) ==
     {[name |-> ds[k].name, ct |-> ds[k].ct, bytes |-> Join(ds[k].chunks)] :
         k \in {k \in DOMAIN ds : Join(ds[k].chunks) # ""}}
 
+\* the skip reason a call carries: the text of its non-empty 'reason' detail
+ReasonOf(e) == LET fs == {f \in NonEmptyFiles(CallDetails(e)) : f.name = "reason"}
+               IN IF e.kind # "skip" \/ fs = {} THEN None ELSE (CHOOSE f \in fs : TRUE).bytes
+
 Outcomes(L) == {i \in DOMAIN L : L[i].op = "outcome"}
 StartOf(L, o) == LastOp(L, o - 1, {"startTest"})
 
 TestOf(L, o) ==
     [id |-> L[o].id, kind |-> L[o].kind, tags |-> TagsAt(L, o),
      t0 |-> IF StartOf(L, o) = 0 THEN None ELSE TimeAt(L, StartOf(L, o)), t1 |-> TimeAt(L, o),
-     files |-> NonEmptyFiles(CallDetails(L[o]))]
+     reason |-> ReasonOf(L[o]), files |-> NonEmptyFiles(CallDetails(L[o]))]
 TestsOf(L) == LET idx == SetToSortSeq(Outcomes(L), LAMBDA a, b : a < b)
               IN [k \in DOMAIN idx |-> TestOf(L, idx[k])]
 
